@@ -1,16 +1,49 @@
-"""svsim -- a small event-driven two-state SystemVerilog simulator for the
+"""svsim -- a small event-driven, two-state SystemVerilog simulator for the
 subset emitted by the PyMTL3 Verilog and Yosys translation passes.
 
-It is a stub for a real simulator (see /verif/DESIGN.md section 3.4 and
-Appendix A): IEEE 1800-2017 context-determined expression sizing, literal
-truncation, an active and an NBA region, a seeded order of active processes
-and static single-driver checks.
+It is a *stub* for a real simulator (see /verif/DESIGN.md section 3.4 and
+Appendix A, which is the contract): IEEE 1800-2017 context-determined
+expression sizing and signedness (11.6, 11.8), literal truncation, an active
+and an NBA region, a seeded order of active processes, static single-driver
+checks.  Pure standard library.
 
-    src = parse(text)
-    design = elaborate(src)                  # top = last module in the text
-    design.static_issues()                   # [(kind, message), ...]
-    sim = design.new_sim(order_seed=3)
-    sim.set('in_', 5); sim.eval(); sim.get('out'); sim.tick()
+    src    = parse(text)                      # SvSyntaxError / SvUnsupported
+    design = elaborate(src)                   # top = last module in the text
+    design.ports                              # [Port(name, direction, width, dims, type_name)]
+    design.static_issues()                    # [(kind, message), ...]
+    sim    = design.new_sim(order_seed=3)
+    sim.set('in_', 5); sim.eval(); sim.get('out'); sim.tick(); sim.stats
+
+API
+---
+parse(text, defines=None) -> Source
+    Source.modules (name -> ModuleAST, file order, first definition wins),
+    Source.module_defs_count, Source.typedefs, Source.issues.
+    `defines`: iterable of macro names (or dict name -> text) predefined for
+    the preprocessor (nothing is predefined: SYNTHESIS and VERILATOR are off).
+elaborate(source, top=None, signed_index='lrm', clk='clk') -> Design
+    signed_index='lrm'     : an index/select expression that is signed (e.g.
+                             N'(integer_var), 6.24.1: a size cast keeps the
+                             signedness of its operand) is a signed number, so
+                             a set top bit means a negative = out-of-range index.
+    signed_index='unsigned': the index bits are read as an unsigned number
+                             (what Verilator does).
+    clk                    : name of the top-level clock input.
+Design.ports, Design.static_issues(), Design.new_sim(order_seed=0),
+    Design.source_text (generated Python, for debugging)
+    static issue kinds: multi_driver, undriven, dup_module, undefined_module,
+    dup_identifier, reserved_identifier, clk_read_as_data, blocking_in_ff,
+    nonblocking_in_comb, unclocked_ff
+Sim.set(name, value), Sim.get(name), Sim.eval(), Sim.tick(), Sim.stats
+    names: top-level ports / variables, 'arr[2]' elements, hierarchical
+    'inst.sub.var' for internals.  Unpacked arrays are (nested) lists.
+    tick() settles pending input changes first, then runs every always_ff
+    (clocked by a net that is a pure pass-through of the top-level clock) and
+    any processes they trigger in seeded order, applies the NBA updates and
+    settles again.  The clock itself is never toggled as data.
+
+Errors: SvError > SvSyntaxError, SvUnsupported, SvElabError, SvCombLoop.
+Anything outside the subset raises SvUnsupported; nothing is ignored silently.
 """
 
 from .errors import SvCombLoop, SvElabError, SvError, SvSyntaxError, SvUnsupported
